@@ -166,7 +166,7 @@ def perms(E, cls, nmax):
 
 def harnesses(tier):
     q = tier == "quick"
-    T = 600 if q else 2400
+    T = 600 if q else 900
     hs = []
     for cls in ('monoidal', 'rigid', 'tensor', 'circuit', 'zx'):
         l, r = (2, 2) if q else (3, 3)
